@@ -377,6 +377,28 @@ fn run(ctx: &mut Ctx) {
             eval_steps_opts(ctx, split_script(*cut, *ms), json!({"split": cut, "pause_ms": ms, "split_opts": oi}), 0, opts);
         }
     }
+    // other epochs: every script up to length 2 with "now" just after midnight at the end of a year and
+    // just after the 32-bit time_t wrap (pauses and healthy periods then cross those boundaries)
+    for (es, ens, _) in [crate::shim::EPOCH_VARIANTS[0], crate::shim::EPOCH_VARIANTS[1]] {
+        for len in 0..=2usize {
+            for idx in 0..NSYM.pow(len as u32) {
+                job += 1;
+                if !ctx.mine(job) {
+                    continue;
+                }
+                let mut syms = vec![];
+                let mut x = idx;
+                for _ in 0..len {
+                    syms.push(x % NSYM);
+                    x /= NSYM;
+                }
+                crate::shim::set_epoch(es, ens);
+                ctx.count("script-under-other-epoch");
+                eval_script(ctx, &syms, 9);
+                crate::shim::reset_epoch();
+            }
+        }
+    }
     // a healthy connection that is silent for longer than every socket time-out the reader set (time-outs
     // compressed 100:1), at a line boundary and in the middle of a line, fresh and after each kind of fault
     let stream_len = frames_of(x_addr(0)).len();
